@@ -12,8 +12,10 @@ import (
 	"os"
 	"os/exec"
 	"path/filepath"
+	"regexp"
 	"strings"
 	"sync"
+	"sync/atomic"
 	"time"
 )
 
@@ -38,6 +40,7 @@ var solvers = []solverDef{
 	}},
 }
 
+var qCounter int64
 var scratchDir string
 var scratchOnce sync.Once
 
@@ -103,23 +106,69 @@ func runOne(ctx context.Context, sd solverDef, file string, timeoutS int) Solver
 
 // solve races the portfolio. If all is true every solver must answer and definite answers must agree
 // (thorough tier); otherwise first definite answer wins.
+var reDefArith = regexp.MustCompile(`(?m)^\(define-fun (\w+) \(((?:\(\w+ \w+\) ?)+)\) (\w+) .*$`)
+
+// abstractArith turns the arithmetic wrappers of the prelude into uninterpreted functions.
+func abstractArith(query string) (string, bool) {
+	i := strings.Index(query, "; @begin-arith")
+	j := strings.Index(query, "; @end-arith")
+	if i < 0 || j < 0 {
+		return "", false
+	}
+	chunk := query[i:j]
+	used := false
+	for _, m := range reDefArith.FindAllStringSubmatch(chunk, -1) {
+		if strings.Contains(query[j:], "("+m[1]+" ") {
+			used = true
+		}
+	}
+	if !used {
+		return "", false
+	}
+	abs := reDefArith.ReplaceAllStringFunc(chunk, func(l string) string {
+		m := reDefArith.FindStringSubmatch(l)
+		var sorts []string
+		for _, p := range regexp.MustCompile(`\(\w+ (\w+)\)`).FindAllStringSubmatch(m[2], -1) {
+			sorts = append(sorts, p[1])
+		}
+		return "(declare-fun " + m[1] + " (" + strings.Join(sorts, " ") + ") " + m[3] + ")"
+	})
+	return query[:i] + abs + query[j:], true
+}
+
 func solve(query string, timeoutS int, all bool) SolverResult {
-	file := filepath.Join(scratch(), "q-"+hashStr(query)+".smt2")
+	file := filepath.Join(scratch(), fmt.Sprintf("q-%s-%d.smt2", hashStr(query), atomic.AddInt64(&qCounter, 1)))
 	if err := os.WriteFile(file, []byte(query), 0o644); err != nil {
 		return SolverResult{Verdict: "unknown", Raw: err.Error()}
 	}
 	defer os.Remove(file)
 	ctx, cancel := context.WithCancel(context.Background())
 	defer cancel()
-	ch := make(chan SolverResult, len(solvers))
+	ch := make(chan SolverResult, len(solvers)+1)
 	for _, sd := range solvers {
 		sd := sd
 		go func() { ch <- runOne(ctx, sd, file, timeoutS) }()
 	}
+	nrun := len(solvers)
+	if aq, ok := abstractArith(query); ok {
+		afile := file + ".abs.smt2"
+		if os.WriteFile(afile, []byte(aq), 0o644) == nil {
+			defer os.Remove(afile)
+			nrun++
+			go func() {
+				r := runOne(ctx, solvers[1], afile, timeoutS)
+				r.Solver += "/uf-abstraction"
+				if r.Verdict != "unsat" {
+					r.Verdict = "unknown" // only a refutation of the abstraction is conclusive
+				}
+				ch <- r
+			}()
+		}
+	}
 	var results []SolverResult
 	var grace <-chan time.Time
 collect:
-	for len(results) < len(solvers) {
+	for len(results) < nrun {
 		select {
 		case r := <-ch:
 			results = append(results, r)
